@@ -22,7 +22,16 @@ template <Kind K, class E, size_t SP> typename MapOf<K, E, SP>::type makeMap(con
     std::array<I, R> s{}; for (size_t r = 0; r < R; r++) s[r] = static_cast<I>(o.str[r]);
     return M(e, s);
   } else if constexpr (K == KLpad || K == KRpad) {
-    if (o.kv.count("pv")) return M(e, static_cast<I>(o.pv));
+    if (o.kv.count("pv")) {
+      // the padding argument may be of any integer type (pt=); its value is a value of that type
+      const std::string pt = o.get("pt");
+      if (pt == "u8") return M(e, static_cast<unsigned char>(o.pv));
+      if (pt == "i16") return M(e, static_cast<short>(o.pv));
+      if (pt == "i32") return M(e, static_cast<int>(o.pv));
+      if (pt == "i64") return M(e, static_cast<long>(o.pv));
+      if (pt == "u64") return M(e, static_cast<unsigned long>(o.pv));
+      return M(e, static_cast<I>(o.pv));
+    }
     return M(e);
   } else return M(e);
 }
@@ -42,6 +51,13 @@ template <class M> std::string mapOps(const M& m, const Op& o) {
     return s;
   }
   if (op == "ext") return "ok " + extList(m.extents());
+  if (op == "cvs") {      // the same mapping converted to another extents type of the same layout (all-dynamic, long): its strides
+    using M2 = typename M::layout_type::template mapping<md::dextents<long, R>>;
+    if constexpr (std::is_constructible_v<M2, const M&>) {
+      M2 m2(m); std::array<long, R> s{}; if constexpr (R > 0) for (size_t r = 0; r < R; r++) s[r] = m2.stride(r);
+      return "ok " + list(s);
+    } else return "no-op";
+  }
   return "bad-op";
 }
 
